@@ -49,6 +49,11 @@ CLAIMS = {
         'The Clustal/MSF block structure and the MSF header fields (true alignment length, per-row GCG checksum over the whole row, molecule type) are NOT yet theorems: the executable writer model (Formats.v write_clu/write_msf/gcg_checksum) is compared byte for byte with kalign_write_msa on every run, and independent parsers check header, block sizes, every-sequence-in-every-block, declared length, checksums and type label on the implementation\'s files.',
    note=TRUST + 'The date in the MSF header is masked. Defects D4-D6 were found by this check and repaired (known_findings.json).',
    tech='Coq proof (FASTA wrapping) + byte-exact writer-model correspondence + independent structural parsers'),
+ 'C05': dict(
+   text='PARTIAL by nature. Theorems (all bytes, all byte strings, all option values, on the executable model): every byte of a sequence is mapped to a class that is a valid index of the tables it is used with, in both alphabets of both kinds - tables regenerated from the built library (C05_residue_codes_defined, C05_converted_sequences_index_in_range); kalign_read_input over any list of inputs yields an error, nothing, or >= 2 records each with exactly len+1 gap counters (C05_read_outcome); the expansion of every well-formed raw path fits path[] (C05_expanded_path_fits); every Clustal/MSF sequence line fits the line buffer for any names (C05_writer_line_fits); the modelled main()/run_kalign returns status 0 with an alignment only if every stage succeeded and EXIT_FAILURE whenever a stage of an aligning invocation fails (C05_success_means_written, C05_failure_is_reported). All model functions are structurally recursive (termination by construction). '
+        'Tie: reader model vs kalign_read_input of the ASan+UBSan build on a corpus of minimised past failures + byte/line mutations of valid files in three formats; every accepted input aligned under the sanitizers with random types, penalties and output formats (result must be FAIL or a valid alignment of what was read); the ASan+LSan command-line binary under generated option strings, missing inputs and unwritable outputs: exit status vs the model, no leak report on success, a message on failure; valgrind sample in the thorough tier.',
+   note=TRUST + 'What only the machine can show - allocator state, real uninitialised bytes, int overflow, libc/libgomp internals, malloc failure - is covered by the sanitizer and valgrind runs, which are tests, not proofs. The DP kernels\' index ranges are not modelled yet (C01 layer 2). Known finding: penalties >= 1e37 crash (known_findings.json C05-huge-gap-penalty). Nine C05 defects were found and repaired (known_findings.json, fixed:).',
+   tech='Coq proof (index ranges, reader outcome, exit-status logic) + reader/CLI model correspondence against the ASan/UBSan/LSan builds'),
  'C11': dict(
    text='PARTIAL. The full statements (bpm_block = sed on the first 1024 pattern symbols; bpm/bpm_256 = sed up to 63/255) are written in Properties_C11.v as Definitions, not yet theorems; proved so far are only basic facts of the specification. '
         'What decides the property on every run: literal executable models of bpm_block, bpm and bpm_256 (lane-level add256 and 256-bit shift included) are compared with the implementation on both the AVX2 and the scalar build, and the implementation is compared with the extracted specification sed, exhaustively for alphabets {2,3} and small lengths (17k cases) and at random around every multiple of 64 up to the 1024 cap.',
